@@ -54,7 +54,7 @@ func genHistory(rng *hcommon.RNG, n int) []Op {
 	caps := []int{1, 2, 4, 64}
 	names := []string{"a", "b", "c", "d"}
 	for _, s := range names[:2+rng.Intn(3)] {
-		ops = append(ops, Op{Kind: "join", S: s, Cap: hcommon.Pick(rng, caps), Slow: rng.Chance(1, 3)})
+		ops = append(ops, Op{Kind: "join", S: s, Cap: hcommon.Pick(rng, caps), Slow: rng.Chance(1, 2)})
 	}
 	joined := func() []string {
 		var js []string
@@ -79,11 +79,11 @@ func genHistory(rng *hcommon.RNG, n int) []Op {
 	for len(ops) < n {
 		js := joined()
 		s := hcommon.Pick(rng, js)
-		switch rng.Intn(18) {
-		case 16:
+		switch rng.Intn(21) {
+		case 16, 18:
 			// first chunk of a progressive call invocation
 			ops = append(ops, Op{Kind: "pcall", S: s, Arg: hcommon.Pick(rng, shutProcs)})
-		case 17:
+		case 17, 19, 20:
 			// a later chunk of the session's last call (same request id)
 			ops = append(ops, Op{Kind: "chunk", S: s, Arg: hcommon.Pick(rng, shutProcs), Flag: rng.Chance(1, 2)})
 		case 0, 1:
@@ -524,7 +524,8 @@ func (p yieldingPeer) Send() chan<- wamp.Message {
 }
 
 var directedShut = []string{"F8-timer-after-close", "F8b-timers-at-close", "F9-attach-after-close", "F26-welcome-vs-close",
-	"F27b-meta-reply-pending", "F31-retry-to-closed-peer", "F32-attach-vs-remove", "F33-publish-vs-close"}
+	"F27b-meta-reply-pending", "F31-retry-to-closed-peer", "F32-attach-vs-remove", "F33-publish-vs-close",
+	"W1-parked-chunk-vs-close", "W1-parked-yield-vs-close", "W1-parked-publish-vs-close", "W1-parked-cancel-vs-close"}
 
 func runDirectedShut(t *testing.T, name string) (res ShutResult) {
 	res.Case = ShutCase{ID: name, Directed: name, Inject: name}
@@ -696,6 +697,68 @@ func runDirectedShut(t *testing.T, name string) (res ShutResult) {
 				for k := 0; k < 30; k++ {
 					w.send(p, &wamp.Publish{Request: p.req(), Topic: "t", Arguments: wamp.List{k}})
 				}
+			}
+			closeWithin(w, "Close", w.r.Close)
+		case "W1-parked-chunk-vs-close", "W1-parked-yield-vs-close", "W1-parked-publish-vs-close", "W1-parked-cancel-vs-close":
+			// The realm shuts down while a session handler is in the middle of a message (parked
+			// in the Authorizer): other sessions' handlers complete their shutdown first, and the
+			// parked one then still routes what it holds - a further chunk of its pending
+			// progressive call, a YIELD, a PUBLISH - against tables from which its peers are gone.
+			for _, kind := range []string{strings.TrimSuffix(strings.TrimPrefix(name, "W1-parked-"), "-vs-close")} {
+				cn, zn := "c-"+kind, "z-"+kind
+				slowc, slowz := kind != "yield", kind == "yield"
+				wrap := func(p wamp.Peer) wamp.Peer { return slowLocalPeer{p, 2 * time.Millisecond} }
+				for name, slow := range map[string]bool{cn: slowc, zn: slowz} {
+					if slow {
+						se, errc := w.attachAsync(name, "r1", 64, false, wrap)
+						time.Sleep(10 * time.Millisecond)
+						synctest.Wait()
+						select {
+						case err := <-errc:
+							if !must(err) {
+								return
+							}
+						default:
+							viol("setup: attach of %s did not return", name)
+							return
+						}
+						if wel, ok := (<-se.c.Recv()).(*wamp.Welcome); ok {
+							se.ID = wel.ID
+						}
+						se.slow = true
+						w.sess[name] = se
+						w.order = append(w.order, name)
+					} else if !must(w.attach(name, "r1", 64)) {
+						return
+					}
+				}
+				slowStep := func(s *sess, m wamp.Message) {
+					w.send(s, m)
+					time.Sleep(5 * time.Millisecond)
+					synctest.Wait()
+					w.drain()
+				}
+				c, z := w.sess[cn], w.sess[zn]
+				proc := wamp.URI("w1." + kind)
+				slowStep(z, &wamp.Register{Request: 1, Procedure: proc})
+				slowStep(z, &wamp.Subscribe{Request: 2, Topic: "w1.t"})
+				slowStep(c, &wamp.Call{Request: 7, Procedure: proc, Options: wamp.Dict{"progress": true, "receive_progress": true}})
+				if len(z.invocations) == 0 {
+					viol("setup: no invocation (%s); caller got %s, callee got %s", kind, lastMsg(c), lastMsg(z))
+					return
+				}
+				// the in-flight message: its handler is parked when the shutdown starts
+				switch kind {
+				case "chunk":
+					w.send(c, &wamp.Call{Request: 7, Procedure: proc, Options: wamp.Dict{}})
+				case "yield":
+					w.send(z, &wamp.Yield{Request: z.invocations[0].Request, Options: wamp.Dict{"progress": true}})
+				case "publish":
+					w.send(c, &wamp.Publish{Request: 8, Topic: "w1.t", Options: wamp.Dict{"acknowledge": true}})
+				case "cancel":
+					w.send(c, &wamp.Cancel{Request: 7, Options: wamp.Dict{"mode": "kill"}})
+				}
+				time.Sleep(time.Millisecond) // the handler has taken the message and is parked for another millisecond
 			}
 			closeWithin(w, "Close", w.r.Close)
 		default:
